@@ -204,7 +204,19 @@ def parse_dot(path):
                 g.states[sid] = parse_state(_unescape_dot(m.group(2)))
                 if 'style = filled' in line:
                     g.init.append(sid)
+    # canonical order (TLC's workers write nodes and edges in scheduling order): everything derived from the graph
+    # - walks, samples - is then a function of the spec and the seed only
+    g.states = {k: g.states[k] for k in sorted(g.states)}
+    g.init = sorted(set(g.init))
+    g.edges = {k: sorted(set((n, _freeze(a), d) for (n, a, d) in g.edges[k]), key=lambda e: (e[0], repr(e[1]), e[2]))
+               for k in sorted(g.edges)}
     return g
+
+
+def _freeze(x):
+    if isinstance(x, list):
+        return tuple(_freeze(y) for y in x)
+    return x
 
 
 _STATE_HDR = re.compile(r'^State (\d+): <(.*?)(?: line \d+, col \d+ to line \d+, col \d+ of module \w+)?>\s*$')
